@@ -99,6 +99,8 @@ type world struct {
 	refused    []op
 	violations int
 	walked     bool
+	// reads whose answer was not observed (transport error / watchdog): counted only
+	unobservedReads int
 }
 
 func (w *world) logf(f string, a ...any) {
